@@ -47,7 +47,7 @@ func init() {
 			}
 			return []runner.Phase{
 				{Name: "codec", Variant: "plain", Cases: nc, Run: c18codecCase, CaseTimeout: 120 * time.Second,
-					Required: []string{"bodies", "empty_bodies", "bodies_over_64k", "foreign_streams_decoded", "corruptions", "corruptions_rejected"}},
+					Required: []string{"bodies", "empty_bodies", "bodies_over_64k", "bodies_over_16m", "foreign_streams_decoded", "corruptions", "corruptions_rejected"}},
 				{Name: "codec-concurrent", Variant: "race", Cases: ncc, Shards: 4, Run: c18concurrentCase, CaseTimeout: 120 * time.Second,
 					Required: []string{"concurrent_encodes"}},
 				{Name: "wire", Variant: "race", Cases: nw, Run: c18wireCase, CaseTimeout: 120 * time.Second,
@@ -58,6 +58,8 @@ func init() {
 }
 
 var c18sizes = []int{0, 0, 1, 2, 3, 4, 5, 8, 11, 12, 13, 14, 15, 16, 17, 19, 20, 59, 60, 61, 62, 63, 64, 65, 255, 256, 257, 269, 270, 271, 272, 1023, 1024, 2047, 2048, 2049, 4095, 4096, 65534, 65535, 65536, 65537, 65551, 65800, 131071, 131072, 131073}
+
+var c18huge = []int{16 << 20, 32 << 20, 16<<20 + 1, 64 << 20, 16843010, 20000000, 16<<20 - 1, 48 << 20, 33686020}
 
 var c18words = strings.Fields("SELECT INSERT INTO UPDATE FROM WHERE AND keyspace table user_id event_time payload = ? , ( ) VALUES system.local 2026-10-01 aaaaaaaaaaaaaaaa lorem ipsum dolor sit amet")
 
@@ -187,6 +189,12 @@ func c18codecCase(c *runner.Ctx, i int) {
 	r := c.Rng
 	kind := r.Intn(7)
 	n := c18size(r, c.Tier)
+	if i < len(c18huge) {
+		// bodies of tens of megabytes (a frame may carry up to 256 MB), incompressible and highly compressible:
+		// 32-bit length arithmetic of a codec shows only here
+		n, kind = c18huge[i], []int{0, 0, 1}[i%3]
+		c.Add("bodies_over_16m", 1)
+	}
 	body := c18body(r, n, kind)
 	sizeClass := 0
 	for x := n; x > 0; x >>= 2 {
